@@ -8,7 +8,11 @@ mod numtower;
 mod reader;
 mod synrules;
 mod gen_cmd;
+mod gen_alloc;
+mod gen_cont;
+mod gen_fail;
 mod gen_lang;
+mod gen_scope;
 mod rng;
 
 fn main() {
